@@ -1,6 +1,6 @@
 (* C16 — results stay correct when intermediates exceed 128 bits. *)
 From FP Require Import Machine SrcConsts Pow10 WideDiv Rounding RoundSpec Out ArithSpec Run.
-From FP Require Import MachineFacts KernelContract WideMulFacts WideDivFacts MulFacts DivFacts.
+From FP Require Import MachineFacts KernelContract WideMulFacts WideDivFacts MulFacts DivFacts KernelAcc.
 
 (* 128 x 128 -> 256 bit product: exact, no internal overflow, every profile *)
 Theorem C16_wide_product :
@@ -80,6 +80,17 @@ Theorem C16_msb : forall pf i, 0 < i < 2 ^ 128 -> u128_msb pf i = Val (Z.log2 i)
 Proof. exact u128_msb_ok. Qed.
 Check C16_msb : forall pf i, 0 < i < 2 ^ 128 -> u128_msb pf i = Val (Z.log2 i).
 Print Assumptions C16_msb.
+
+(* every kernel-level oracle predicate the correspondence driver applies to the implementation
+   (protocol lines w.*: the public kernels and the private ones behind the cfg(fpdec_verif) hooks:
+   128x128 product, 256/64, 256/128 general and special case, msb, the 17-bit log10 kernel, the two
+   SWAR helpers) holds of the model on the kernel's whole domain, in every profile and mode *)
+Theorem C16_kernel_oracles_hold :
+  forall pf m op a b c, kdom op a b c -> acc_k m op a b c (run_k pf m op a b c) = true.
+Proof. exact kernel_acc. Qed.
+Check C16_kernel_oracles_hold :
+  forall pf m op a b c, kdom op a b c -> acc_k m op a b c (run_k pf m op a b c) = true.
+Print Assumptions C16_kernel_oracles_hold.
 
 Example C16_nonvacuous :
   i256_div_mod_floor dev (- 10 ^ 21) (10 ^ 18) (10 ^ 19) = Val (Some (- 10 ^ 20, 0)) /\
